@@ -44,6 +44,9 @@ fn main() {
         "prog-fault" => streams::prog_faulty(&mut rng, count, "fault", &mut emit),
         "yo" => streams::yo(&mut rng, count, false, &mut emit),
         "yo-malformed" => streams::yo(&mut rng, count, true, &mut emit),
+        "parse" => streams::parse(&mut rng, count, &mut emit),
+        "lex" => streams::lex(&mut rng, count, &mut emit),
+        "literal" => streams::literal(&mut rng, count, &mut emit),
         "table" => streams::table(&mut rng, count, &mut emit),
         "options" => streams::options(&mut rng, count, &mut emit),
         "dump" => streams::dump(&mut rng, count, &mut emit),
